@@ -14,7 +14,8 @@ N = qtyping.TFLOperationName
 FLOAT, INT8, INT16, INT32 = 0, 9, 7, 2
 UN = {'TANH': B.TANH, 'LOGISTIC': B.LOGISTIC, 'ABS': B.ABS}
 BI = {'ADD': (B.ADD, S.BuiltinOptions.AddOptions, S.AddOptionsT), 'MUL': (B.MUL, S.BuiltinOptions.MulOptions, S.MulOptionsT)}
-OPNAME = {'TANH': N.TANH, 'LOGISTIC': N.LOGISTIC, 'ADD': N.ADD, 'MUL': N.MUL, 'FC': N.FULLY_CONNECTED}
+OPNAME = {'TANH': N.TANH, 'LOGISTIC': N.LOGISTIC, 'ADD': N.ADD, 'MUL': N.MUL, 'FC': N.FULLY_CONNECTED, 'ADDC': N.ADD, 'MULC': N.MUL}
+BIC = {'ADDC': 'ADD', 'MULC': 'MUL'}            # binary op whose second operand is ONE constant tensor 'c' shared by every such op of the graph
 W = (np.arange(16, dtype=np.float32).reshape(4, 4) - 7.5) / 9.0
 
 def cfg(mode):
@@ -34,6 +35,9 @@ def build(spec):
         if kind in UN: ops.append((UN[kind], [a], [o], None))
         elif kind in BI:
             code, ot, oc = BI[kind]; ops.append((code, [a, b], [o], (ot, oc())))
+        elif kind in BIC:
+            if not any(t[0] == 'c' for t in tensors): tensors.append(('c', [1, 4], FLOAT, np.array([[0.5, -1.25, 2.0, 0.75]], dtype=np.float32)))
+            cid = next(k_ for k_, t in enumerate(tensors) if t[0] == 'c'); code, ot, oc = BI[BIC[kind]]; ops.append((code, [a, cid], [o], (ot, oc())))
         elif kind == 'FC':
             tensors.append((f'w{i}', [4, 4], FLOAT, W + i)); wid = len(tensors) - 1
             ops.append((B.FULLY_CONNECTED, [a, wid, -1], [o], (S.BuiltinOptions.FullyConnectedOptions, S.FullyConnectedOptionsT())))
@@ -187,6 +191,14 @@ def enumerate_cases(max_exhaustive_ops=2, sampled3=0, seed=0):
         if key not in seen: seen.add(key); res.append((spec, modes))
     return res
 DATA = [{'in0': np.random.RandomState(1).randn(1, 4).astype(np.float32)}]
+def special_cases():
+    """topologies outside the exhaustive family: ONE constant tensor read by two (static-range) ops in every combination of modes -- quantize() must refuse or return a loadable model"""
+    out = []
+    for k1, k2 in (('ADDC', 'MULC'), ('ADDC', 'ADDC'), ('MULC', 'ADDC')):
+        for m1 in ('none', 'srq8', 'srq16'):
+            for m2 in ('none', 'srq8', 'srq16'): out.append((dict(ops=[(k1, 0, -1), (k2, 1, -1)], outs=[2]), [m1, m2]))
+    return out
+
 def run_case(case):
     spec, modes = case
     spec = dict(ops=[tuple(o) for o in spec['ops']], outs=list(spec['outs']))
